@@ -8,7 +8,7 @@ OBLIGATIONS = []
 for s in range(1, 11):
     OBLIGATIONS.append(dict(
         name='scale_%s' % NAMES[s], src='h_scale.c', defs=['SCALE=%d' % s, 'ORC_FAST'], units=[], incl=['src/scale.c'], replay_units='all',
-        unwind=3, unwindset={'mjd2ht.*': 1760}, solver='kissat', timeout=900, mem_gb=8,
+        unwind=3, unwindset={'mjd2ht.*': 1760}, solver='kissat', slice_formula=True, timeout=800, mem_gb=4,
         checks=['--bounds-check', '--div-by-zero-check'],
         enc=['echs_instant_rescale', 'g2mjd', 'mjd2g', 'hij2mjd', 'mjd2hij', 'ht2mjd', 'mjd2ht', 'echs_scale_ndim', 'echs_scale_wday', '__hij_inty_p'],
         sym='the Gregorian date (year, month, day)', bounds='every day of 1901..2099',
